@@ -358,11 +358,20 @@ inductive Ctl where
   | stop
   | restart
   | bufReset                -- xmp_play_buffer(ctx, NULL, 0, 0): the documented reset entry
+  | rescan                  -- xmp_set_player(MODE / CFLAGS): the sequence fix-up after the rescan (module = the rescanned one)
   deriving Repr, Inhabited
 
 /-- `xmp_play_buffer(ctx, NULL, 0, 0)`: "reset internal state" — zeroes `p->loop_count` (and the
 buffer bookkeeping, which the sequencer does not read) -/
 def bufferReset (s : St) : St := { s with loopCount := 0 }
+
+/-- the player-state side of `xmp_set_player(ctx, XMP_PLAYER_MODE, v)` and of a
+`XMP_PLAYER_CFLAGS` change that toggles vblank timing: `libxmp_scan_sequences` has rebuilt the scan
+tables (`m` is the module AFTER the rescan: same orders and patterns, possibly other sequences,
+markers, order info); "the rescan may find fewer sequences than before":
+`if (p->sequence >= m->num_sequences) p->sequence = 0`. -/
+def rescanFix (m : SeqMod) (s : St) : St :=
+  { s with sequence := if s.sequence ≥ m.numSeq then 0 else s.sequence }
 
 def ctl (m : SeqMod) (s : St) : Ctl → St
   | .setPos p => (apiSetPosition m s p).getD s
@@ -373,6 +382,7 @@ def ctl (m : SeqMod) (s : St) : Ctl → St
   | .stop => stopModule s
   | .restart => restartModule s
   | .bufReset => bufferReset s
+  | .rescan => rescanFix m s
 
 /-- `xmp_play_buffer(ctx, out, size, loop)` with `out ≠ NULL`, as far as the sequencer sees it:
 `xmp_play_frame` is called each time the internal frame buffer is used up while the caller's
@@ -427,7 +437,8 @@ def st26ok (v : Int) : Bool :=
 
 def allBelow (n : Nat) (f : Int → Bool) : Bool := (List.range n).all fun i => f (i : Int)
 
-def wfB (m : SeqMod) : Bool :=
+/-- every clause of `wfB` except the initial speed -/
+def wfSongB (m : SeqMod) : Bool :=
   decide (0 < m.len) && decide (m.len ≤ 256) && decide (0 ≤ m.pat) && decide (m.pat ≤ 256) && decide (0 ≤ m.rst) && decide (m.rst < m.len) &&
   decide (m.xxo.length = 256) && decide (m.seqCtl.length = 256) && decide (m.rows.length = m.pat.toNat) &&
   decide (1 ≤ m.numSeq) && decide (m.numSeq ≤ 255) &&
@@ -436,8 +447,15 @@ def wfB (m : SeqMod) : Bool :=
   allBelow m.numSeq.toNat (fun s => decide (0 ≤ m.entryOf s) && decide (m.entryOf s < m.len)) &&
   allBelow m.len.toNat (fun o => geti m.seqCtl o == 0xff || (decide (0 ≤ geti m.seqCtl o) && decide (geti m.seqCtl o < m.numSeq))) &&
   allBelow m.len.toNat (fun o => decide (m.xo o ≥ m.pat) ||
-    (decide (1 ≤ geti m.oBpm o) && decide (0 ≤ geti m.oSpeed o) && decide (geti m.oSpeed o ≤ 255) && st26ok (geti m.oSt26 o))) &&
-  (decide (skipInvalid m 257 0 ≥ m.len) || decide (1 ≤ geti m.oSpeed (skipInvalid m 257 0)))
+    (decide (1 ≤ geti m.oBpm o) && decide (0 ≤ geti m.oSpeed o) && decide (geti m.oSpeed o ≤ 255) && st26ok (geti m.oSt26 o)))
+
+/-- the initial speed: the first playable order (if any) records a speed of at least 1 — it is the
+header speed `mod->spd`, which `libxmp_load_epilogue` keeps in 1..255 (C03 `spdOK`;
+`XmpProps.C16Start`) -/
+def wfStartSpeedB (m : SeqMod) : Bool :=
+  decide (skipInvalid m 257 0 ≥ m.len) || decide (1 ≤ geti m.oSpeed (skipInvalid m 257 0))
+
+def wfB (m : SeqMod) : Bool := wfSongB m && wfStartSpeedB m
 
 /-! ## Order-list facts that bound the order-skipping loop of `next_order`
 
